@@ -17,6 +17,8 @@ type C15Case struct {
 	SrcNils  bool   `json:"srcnils"`            // every third source element (from index 1) is nil
 	SrcWeird int    `json:"srcweird,omitempty"` // 1+index of a source element that is a typed nil pointer (depth 1..3) or a pointer to one; 0 none
 	SrcIdx   int    `json:"srcidx,omitempty"`   // index options on the source (1 negative, 2 forward, 3 both) - and on the destination (x4): Transfer addresses elements itself, the options have no say
+	SrcAmb   int    `json:"srcamb,omitempty"`   // ambient settings on the source ...
+	DstAmb   int    `json:"dstamb,omitempty"`   // ... and on the destination (applied last; a recorded error does not make a read-only destination writable)
 	SrcMutex bool   `json:"srcmutex,omitempty"` // the source has SetMutex(): a lock taken on it must be released on every path
 	SrcStack int    `json:"srcstack"`           // index of a nested Stack element in the source, -1 = none
 	DstKind  string `json:"dstkind"`
@@ -117,6 +119,10 @@ func runC15(c C15Case) (st Stats, err error) {
 				return nil
 			})
 		}
+		ApplyAmbient(src, c.SrcAmb&^AmbPushOK)
+		if c.Opt != "policy" {
+			ApplyAmbient(dst, c.DstAmb&^AmbPushOK)
+		}
 		switch c.Form {
 		case "native":
 			dstArg = dst
@@ -130,6 +136,9 @@ func runC15(c C15Case) (st Stats, err error) {
 			dstArg = &d
 		case "readonly":
 			dst.SetReadOnly(true)
+			if c.DstAmb&AmbErr != 0 {
+				dst.SetErr(errAmbient) // (SetErr is allowed on a read-only instance)
+			}
 			dstArg = dst
 		case "readonly-alias":
 			dst.SetReadOnly(true)
@@ -288,6 +297,34 @@ func runC15(c C15Case) (st Stats, err error) {
 		}
 	}
 
+	// Transfer into the receiver itself (every form): it returns normally - with the mutex enabled too - and
+	// "true" means: previous elements followed by the source's, which here is the content twice
+	if c.SrcLen <= 12 && c.DstLen%3 == 0 {
+		for fi, mkArg := range []func(s stackage.Stack) any{
+			func(s stackage.Stack) any { return s },
+			func(s stackage.Stack) any { return MyStack(s) },
+			func(s stackage.Stack) any { return &s },
+		} {
+			self := newStackOfKind(c.SrcKind, 0)
+			if c.SrcMutex {
+				self.SetMutex()
+			}
+			for i := 0; i < c.SrcLen; i++ {
+				self.Push(tagValue(300 + i))
+			}
+			var ok bool
+			if p := guard(func() { ok = self.Transfer(mkArg(self)) }); p != "" {
+				return st, violf("self-transfer/panic", "Transfer into the receiver itself (form %d, mutex %v) did not return normally: %s", fi, c.SrcMutex, p)
+			}
+			if ok && self.Len() != 2*c.SrcLen {
+				return st, violf("self-transfer/true", "Transfer into the receiver itself returned true with Len %d, source had %d", self.Len(), c.SrcLen)
+			}
+			if !ok && self.Len() != c.SrcLen {
+				return st, violf("self-transfer/false-but-changed", "Transfer into the receiver itself returned false and left Len %d, was %d", self.Len(), c.SrcLen)
+			}
+		}
+		st.Class("self-transfer")
+	}
 	// a destination handed over by pointer is whatever the pointer points to NOW: the same pointer is used
 	// again after its pointee was replaced by (a) a zero value, (b) a read-only stack, (c) a fresh roomy stack
 	if ptr, isPtr := dstArg.(*stackage.Stack); isPtr && ptr != nil && (c.Form == "ptrstack" || c.Form == "readonly-ptrstack") {
@@ -384,6 +421,7 @@ func enumC15(tier Tier, yield func(C15Case)) {
 					for _, nils := range []bool{false, true} {
 						base := C15Case{SrcKind: stackKinds[(srcLen+dstLen)%5], DstKind: stackKinds[(srcLen+2*dstLen+1)%5],
 							SrcLen: srcLen, DstLen: dstLen, CapExtra: capExtra, SrcFIFO: fifo, SrcNils: nils, SrcStack: -1, Opt: "plain",
+							SrcAmb: ((srcLen*5 + dstLen + capExtra + 2) * 37) % (AmbAll + 1), DstAmb: ((srcLen + dstLen*11 + capExtra + 5) * 53) % (AmbAll + 1),
 							SrcMutex: (srcLen+dstLen+capExtra)%2 == 0, SrcIdx: (srcLen*7 + dstLen*3 + capExtra + 1) % 16}
 						for _, form := range c15Forms {
 							c := base
@@ -475,6 +513,8 @@ func genC15(t *rapid.T, tier Tier) C15Case {
 	if rapid.Bool().Draw(t, "idxopts?") {
 		c.SrcIdx = rapid.IntRange(1, 15).Draw(t, "idxopts")
 	}
+	c.SrcAmb = drawAmbient(t, false)
+	c.DstAmb = drawAmbient(t, false)
 	if c.SrcLen > 0 && rapid.IntRange(0, 4).Draw(t, "weird?") == 0 {
 		c.SrcWeird = 1 + rapid.IntRange(0, c.SrcLen-1).Draw(t, "weirdat")
 		if c.SrcWeird-1 == c.SrcStack {
